@@ -134,7 +134,7 @@ def jobs(tier):
                 out.append(("explore", h, 1, None, 3))
         else:
             # bound 2 for the parse/parse harnesses, sharded by the first deviation; bound 1 for the other pairs and for 3 threads
-            if h[2] == "parse/parse":
+            if h[2] == "parse/parse" and h[0] not in READ_ONLY:
                 # bound 2, sharded by the first deviation from the default schedule (the root execution is shard 0's extra)
                 bodies, expected = make(*h)
                 x = sched.Execution(bodies(), [], impl.LIBDIR).run()
